@@ -447,13 +447,15 @@ theorem ginv_pushToBlock2 (P : Params) (S : GSess) (L : S.Laws P.codec) (st : St
     split at h
     · simp at h
     · simp at h; obtain ⟨rfl, rfl⟩ := h
-      have : GInv S (complete st) := by
-        apply ginv_complete hg.toGStat hl
-        intro hop
-        obtain ⟨T, C, h1, h2, h3, _⟩ := (hj.opened hop).ex
-        have hT : T = 0 := by rw [htl] at h1; simp at h1; omega
-        rw [(h3 hT).2]
-        exact (List.eq_nil_of_length_eq_zero hz).symm
+      have : GInv S (if st.writer.isSome = true then complete st else st) := by
+        split
+        · apply ginv_complete hg.toGStat hl
+          intro hop
+          obtain ⟨T, C, h1, h2, h3, _⟩ := (hj.opened hop).ex
+          have hT : T = 0 := by rw [htl] at h1; simp at h1; omega
+          rw [(h3 hT).2]
+          exact (List.eq_nil_of_length_eq_zero hz).symm
+        · exact hg
       exact ⟨fun _ => this, this.toGStat⟩
   · rename_i hnz
     obtain ⟨hsbn, hpay, hsbl⟩ := hgen hnz
